@@ -28,6 +28,35 @@ import traceback  # noqa
 import warnings  # noqa
 
 
+def _quiet_mtscomp():
+    """determinism and silence: mtscomp's thread pool becomes sequential (chunk order = program order), its progress bars vanish"""
+    import mtscomp
+
+    class SeqPool(object):
+        def __init__(self, *a, **k):
+            pass
+
+        def map(self, fn, it):
+            return [fn(x) for x in it]
+
+        def close(self):
+            pass
+
+        def join(self):
+            pass
+
+    def no_tqdm(it=None, *a, **k):
+        return it
+    mtscomp.ThreadPool = SeqPool
+    mtscomp.tqdm = no_tqdm
+    try:
+        import tqdm as _tq
+        import ibldsp.spiketrains as st
+        st.tqdm = type("T", (), {"tqdm": staticmethod(no_tqdm)})
+    except Exception:
+        pass
+
+
 def main():
     ap = argparse.ArgumentParser()
     ap.add_argument("prop")
@@ -40,6 +69,7 @@ def main():
     warnings.filterwarnings("ignore")
     logging.disable(logging.CRITICAL)
     from mc import engine
+    _quiet_mtscomp()
     try:
         mod = importlib.import_module("checks.%s" % a.prop.lower())
         if a.replay:
